@@ -8,7 +8,7 @@ from ..seams import LIB_ERRORS
 from ..core import real
 from ..oracle import (ACCEPT, REJECT, EITHER, slack3, slack_tripped_int, and3,
                       verdict3, validsig, sha256, shake256, pubkey_of_seed,
-                      bool_of, base_mult, point_add, as_key_arg, PREFIXES)
+                      bool_of, base_mult, point_add, as_key_arg, PREFIXES, DECORATIONS)
 
 PID = 'C15'
 ISOLATE = True      # one forked process per run: nothing a run does to process-global
@@ -37,7 +37,7 @@ REQUIRED_PROBES = ['refund_at_deadline', 'refund_deadline_minus_1', 'claim_after
                    'digest_param', 'hash_size_1', 'hash_size_16', 'hash_size_20',
                    'hash_size_32', 'hash_size_64', 'step_between_reads', 'corrupt_sig',
                    'corrupt_preimage', 'corrupt_pubkey', 'corrupt_selector', 'threshold_per_call',
-                   'default_timestamp', 'crafted_witness']
+                   'default_timestamp', 'crafted_witness', 'witness_with_code']
 
 LKINDS = ['htlc_sha', 'htlc_shake', 'htlc2_sha', 'htlc2_shake', 'ptlc', 'ptlc_tweak']
 WKINDS = ['htlc', 'htlc2', 'ptlc', 'ptlc_refund']
@@ -125,7 +125,8 @@ def gen_step(rng, cell, oid, out, clocks, vname, thr, fault_free):
             'default_t': rng.chance(1, 8),
             # keys handed to the builders as bytes or as PyNaCl objects; a neutral
             # script prefix before the signing operation
-            'keys': rng.choice(['bytes', 'bytes', 'object']), 'prefix': rng.choice(PREFIXES)}
+            'keys': rng.choice(['bytes', 'bytes', 'object']), 'prefix': rng.choice(PREFIXES),
+            'decor': rng.choice(DECORATIONS)}
     if not fault_free:
         r = rng.below(10)
         if r == 0:
@@ -406,6 +407,9 @@ def execute(plan, run):
             run.probe('corrupt_' + nm)
             run.fault('corrupt_' + nm)
         sf = {k: bytes.fromhex(v) for k, v in out['sigfields'].items()}
+        if step.get('decor'):
+            run.probe('witness_with_code')
+            w = T.Script('# decorated witness #', T.compile_script(step['decor']) + w.bytes)
         cache_in = dict(sf) if step.get('default_t') else {**sf, 'timestamp': step['t']}
         CLOCK.latency_us = kn['latency_us']
         CLOCK.begin_call(step['validator'], step['faults'])
